@@ -332,6 +332,22 @@ def opInverse (e : Entry) : RM Res := do
           let good := sols.any (fun s =>
             ((s.j4 - prev.j4).abs - (s.j6 - prev.j6).abs).abs ≤ 1e-6 && posErr pose (forwardC k s) ≤ dT + 1e-9)
           preds := preds ++ [("C05.equal_shift", good, s!"no answer moves J4 and J6 by the same amount from previous {showJ6 prev}: {sols.map showJ6}")]
+      -- the same with the CONSTRAINT_CENTERED sentinel: "previous" are the centres of the limits; the limits are wide
+      -- enough around the originating joints for the redistributed answer to be compliant
+      if e == .invc && !hasPara k && k.core.p.dof != 5 && prev.j1.isNaN && q.allFinite &&
+          [prev.j2, prev.j3, prev.j4, prev.j5, prev.j6].all (fun x => x == 0.0) then
+        match k.constraints with
+        | some c =>
+          let p := k.core.p
+          let (m5, m3, m1) := thetaMargins p q
+          let wide := (List.zip q.toList (List.zip c.centers.toList c.tolerances.toList)).all
+            (fun (x, (ce, tol)) => (x - ce).abs ≤ 0.31 && tol ≥ 0.5 && tol ≤ 3.0)
+          if wide && m5 < 1e-12 && m3 > 0.25 && m1 > 0.25 && (Float.sin ((thetaOf p q).j5 / 2.0)).abs < 1e-6 &&
+              singPremise p (Kin.localPoseF k pose) then
+            let good := sols.any (fun s =>
+              ((s.j4 - c.centers.j4).abs - (s.j6 - c.centers.j6).abs).abs ≤ 1e-6 && posErr pose (forwardC k s) ≤ dT + 1e-9)
+            preds := preds ++ [("C05.equal_shift", good, s!"CONSTRAINT_CENTERED: no answer moves J4 and J6 by the same amount from the centres {showJ6 c.centers}: {sols.map showJ6}")]
+        | none => pure ()
     | none => pure ()
     let tags := [s!"n={sols.length}", s!"entry={e.name}"]
     pure { corr := if ok then "OK" else "MISMATCH",
